@@ -23,7 +23,7 @@ use serde_json::json;
 use kvh::util::{coq_list, write_json, Args, CaseWriter, Rng};
 
 const HEADER: &str = "From KV Require Import base.Tac bgp.Prefix bgp.Rov bgp.Analyser bgp.BgpCheck.\nOpen Scope N_scope.";
-const FOOTER: &str = "Eval vm_compute in (failing agrees base_index cases).\nEval vm_compute in (failing c17_ok base_index cases).";
+const FOOTER: &str = "Eval vm_compute in (failing agrees base_index cases).\nEval vm_compute in (failing c17_ok base_index cases).\nEval vm_compute in (failing ok_suggest_preserves base_index cases).";
 
 /// A prefix in the harness: family, address as the family-sized integer, length.
 #[derive(Clone, Copy, Debug, PartialEq, Eq, PartialOrd, Ord, Hash)]
@@ -436,7 +436,7 @@ fn run(args: &Args) -> i32 {
                                     TypedPrefix::V4(_) => held.ipv4().contains_roa(&p.as_roa_ip_address()),
                                     TypedPrefix::V6(_) => held.ipv6().contains_roa(&p.as_roa_ip_address()),
                                 };
-                                if !fam_holds { feats.insert("F17c: ROA counted as held only through the other address family"); }
+                                if !fam_holds { feats.insert("F17c regression (fixed in /repo 2496aeb4): ROA counted as held only through the other address family"); }
                             }
                         }
                         ConfiguredRoaOrAnnouncement::Announcement(a) => {
